@@ -153,6 +153,12 @@ def mon_protocol(sess, sc):
     for st in sc.script:
         if st[0] == "send":
             sent[st[1]] = sent.get(st[1], 0) + st[2].count(b"\n")
+    dropped = set(sess.closed_clients)
+    for st in sc.script:
+        if st[0] == "raw":
+            for e in st[1]:
+                m = re.match(r"(EOF|RST|FULLCLOSE) c(\d+)", e)
+                if m: dropped.add(int(m.group(2)))
     for k, stream in sess.client_out.items():
         reps = split_replies(stream)
         if reps is None:
@@ -160,7 +166,7 @@ def mon_protocol(sess, sc):
         quit_seen = False
         for code, lines, prompt in reps:
             if code in ("partial", "dangling"):
-                if sess.alive_after_script and not quit_seen and k not in sess.closed_clients:
+                if sess.alive_after_script and not quit_seen and k not in dropped:
                     bad.append(("protocol", "dangling-3xx", "client %d: informational lines without terminal line: %r" % (k, lines[-1][:80])))
                 continue
             for ln in lines:
@@ -176,7 +182,7 @@ def mon_protocol(sess, sc):
             elif not prompt and not quit_seen:
                 bad.append(("protocol", "no-prompt", "client %d: terminal %d not followed by a prompt" % (k, code)))
         nterm = sum(1 for c, _, _ in reps if isinstance(c, int))
-        if sess.alive_after_script and not sess.wedged and not sess.overrun and k not in sess.closed_clients and nterm != sent.get(k, 0):
+        if sess.alive_after_script and not sess.wedged and not sess.overrun and k not in dropped and nterm != sent.get(k, 0):
             bad.append(("one-reply", "count", "client %d sent %d lines and got %d terminal replies" % (k, sent.get(k, 0), nterm)))
     return bad
 
